@@ -80,6 +80,9 @@ type Cluster struct {
 	ctrl     *controllers
 	Trace    []string // human readable action trace (for replay files)
 	NoRecord bool     // skip snapshots (speed) when only the call log matters
+	// ListOrder, when set, permutes the items of every List answer (kind, n) -> permutation of 0..n-1:
+	// a cache-backed client gives no ordering guarantee
+	ListOrder func(kind string, n int) []int
 }
 
 // New builds an empty cluster at the virtual epoch. The virtual clock is
@@ -361,6 +364,7 @@ func (c *Cluster) Fork() *Cluster {
 	f.seq, f.nameCtr, f.uidCtr, f.StepNo = c.seq, c.nameCtr, c.uidCtr, c.StepNo
 	f.Trace = append([]string(nil), c.Trace...)
 	f.NoRecord = c.NoRecord
+	f.ListOrder = c.ListOrder
 	return f
 }
 
@@ -369,7 +373,9 @@ func (c *Cluster) Env() client.Client { return c.fake }
 
 var bg = context.Background()
 
-func keyOf(ns, name string) types.NamespacedName { return types.NamespacedName{Namespace: ns, Name: name} }
+func keyOf(ns, name string) types.NamespacedName {
+	return types.NamespacedName{Namespace: ns, Name: name}
+}
 
 // KeyOf builds a namespaced name.
 func KeyOf(ns, name string) types.NamespacedName { return keyOf(ns, name) }
